@@ -15,7 +15,7 @@ S0       == 2
 TCalls   == DOMAIN SeqMap
 TG       == {Events[i].g : i \in {j \in DOMAIN Events : Events[j].ev # "race"}}
 
-VARIABLES pc, cur, shared, done, l
+VARIABLES pc, cur, shared, done, ndone, l
 C == INSTANCE Concurrent WITH G <- TG, Calls <- TCalls, SeqResult <- SeqMap,
                               Shared0 <- Trace[S0].res, Broken <- FALSE
 
@@ -26,10 +26,10 @@ TraceNext ==
   /\ LET e == Events[l] IN
      CASE e.ev = "begin" -> C!Begin(e.g, e.call)
        [] e.ev = "end"   -> /\ cur[e.g] = e.call /\ C!End(e.g)
-                            /\ <<e.g, e.call, e.res>> \in done'           \* the logged result is the sequential one
+                            /\ done'[e.g] = [call |-> e.call, res |-> e.res]   \* the logged result is the sequential one
                             /\ (e.shared = "skip" \/ e.shared = shared')     \* the logged shared-state digest is unchanged
        [] OTHER          -> FALSE                                          \* a race report is no action of the specification
-TraceSpec == TraceInit /\ [][TraceNext]_<<pc, cur, shared, done, l>>
+TraceSpec == TraceInit /\ [][TraceNext]_<<pc, cur, shared, done, ndone, l>>
 \* the whole trace was consumed (deadlock checking is off; TLC stops where no action matches)
 Accepted == l = Len(Events) + 1
 Report == (l = Len(Events) + 1) => PrintT("TRACE-ACCEPTED " \o ToString(Len(Events)))
